@@ -400,6 +400,9 @@ impl Scenario for Dual {
         // of which 2 codes x 3 contexts x 2 directions (47, 4F) are outside the domain
         cov.declare("common_key_x_direction_agreed", NKEYS * 2);
         cov.declare("layout_x_key_end_to_end", NLAYOUT_OBJS * NKEYS);
+        cov.fault_declare("prefix_byte_sent_twice");
+        cov.fault_declare("stray_prefix_byte");
+        cov.probe_declare("clear_called_inside_a_key_sequence");
         cov.probe_declare("obs_both_hosts_decoded_a_key");
         cov.probe_declare("obs_only_set1_knows_the_code");
         cov.probe_declare("obs_neither_host_knows_the_code");
@@ -413,7 +416,6 @@ impl Scenario for Dual {
         cfg.xt = false;
         cfg.layout = (run % NLAYOUT_OBJS as u64) as u8;
         cfg.map = (run / 30) % 2 == 0;
-        cfg.rate = 0;
         let codes = xl_codes();
         let f = (run % 774) as usize;
         let (fp, fc, fb) = ((f / 258) as u8, codes[(f / 2) % 129], f % 2 == 1);
@@ -427,6 +429,21 @@ impl Scenario for Dual {
         if c13_domain(fc) {
             ops.insert(pos, TOp { t, op: Op::Key { pfx: fp, code: fc, brk: fb, fault: BFault::None } });
         }
+        // watchdog / application calling clear() at an arbitrary instant (legal at any time on
+        // both hosts), and - in three runs out of four - device-side prefix stutter
+        let stutter = run % 4 != 0;
+        cfg.rate = stutter as u8;
+        let limit = ops.len() * 2 / 3;
+        for (j, o) in ops.iter_mut().enumerate() {
+            if let Op::Key { pfx, code, brk, .. } = o.op {
+                if rng.chance(1, 12) {
+                    o.op = Op::Key { pfx, code, brk, fault: BFault::ClearAt(rng.range(1, 2) as u8) };
+                } else if stutter && j < limit && rng.chance(1, 15) {
+                    let f = if pfx != 0 && rng.bool() { BFault::Dup(0) } else { BFault::Ins(0, if rng.bool() { 0xE0 } else { 0xE1 }) };
+                    o.op = Op::Key { pfx, code, brk, fault: f };
+                }
+            }
+        }
         Trace { prop: "C13".into(), cfg, ops, seed: 0, run, expect: None }
     }
     fn execute(&self, trace: &Trace, env: &mut Env) -> Outcome {
@@ -436,120 +453,185 @@ impl Scenario for Dual {
         let codes = xl_codes();
         let lay = cfg.layout as usize % NLAYOUT_OBJS;
         // the two hosts: full Keyboards, same layout object and mode
-        let mut host_a = Keyboard::new(DynSet::new(2), DynLayout::object(lay), hc(cfg.map));
-        let mut host_b = Keyboard::new(DynSet::new(1), DynLayout::object(lay), hc(cfg.map));
+        let mut host_a = KbAny::new(2, DynLayout::object(lay), hc(cfg.map));
+        let mut host_b = KbAny::new(1, DynLayout::object(lay), hc(cfg.map));
         let mut last_t = 0;
         let mut pause_stage = 0u8;
+        let mut any_fault = false;
+        // results other than "no event yet", in order
+        fn settled(rs: &[Res]) -> Vec<Res> {
+            rs.iter().copied().filter(|r| *r != Res::Pending).collect()
+        }
+        // do two settled result lists agree in the sense of the statement?
+        // -> None if they do, Some(index) of the first disagreement otherwise
+        fn lists_disagree(a: &[Res], b: &[Res]) -> Option<usize> {
+            if a.len() != b.len() {
+                return Some(a.len().min(b.len()));
+            }
+            for (i, (x, y)) in a.iter().zip(b.iter()).enumerate() {
+                let bad = match (x, y) {
+                    (Res::Ev(k2, s2), Res::Ev(k1, s1)) => k2 != k1 || s2 != s1,
+                    (Res::Ev(k2, _), Res::Err(_)) => set1_expressible(*k2),
+                    _ => false,
+                };
+                if bad {
+                    return Some(i);
+                }
+            }
+            None
+        }
+        fn show_list(rs: &[Res]) -> String {
+            rs.iter().map(|r| r.show()).collect::<Vec<_>>().join(", ")
+        }
         'ops: for (i, top) in trace.ops.iter().enumerate() {
             env.cur_op = i;
             last_t = top.t.max(last_t);
-            let (pfx, code, brk) = match top.op {
-                Op::Key { pfx, code, brk, .. } if pfx <= 2 && c13_domain(code) => (pfx, code, brk),
+            let (pfx, code, brk, fault) = match top.op {
+                Op::Key { pfx, code, brk, fault } if pfx <= 2 && c13_domain(code) => (pfx, code, brk, fault),
                 _ => continue,
             };
-            let b2 = encode_set2(pfx, code, brk);
+            // device-side stutter (a prefix byte sent twice, a stray prefix byte) happens before
+            // the controller, so both hosts see it; every other byte fault is ignored here
+            // because the i8042 itself legitimately reshapes it (e.g. it swallows a doubled F0)
+            let base2 = encode_set2(pfx, code, brk);
+            let (b2, clear_at): (Vec<u8>, Option<usize>) = match fault {
+                BFault::Dup(0) if pfx != 0 => {
+                    env.cov.fault("prefix_byte_sent_twice");
+                    any_fault = true;
+                    (apply_bfault(&base2, fault).0, None)
+                }
+                BFault::Ins(0, b) if b == 0xE0 || b == 0xE1 => {
+                    env.cov.fault("stray_prefix_byte");
+                    any_fault = true;
+                    (apply_bfault(&base2, fault).0, None)
+                }
+                BFault::ClearAt(n) => {
+                    env.cov.probe("clear_called_inside_a_key_sequence");
+                    (base2.clone(), Some(n as usize))
+                }
+                _ => (base2.clone(), None),
+            };
             let b1 = I8042::translate(&b2);
+            let plain = b2 == base2 && clear_at.is_none();
             // per-sequence verdicts from fresh decoders
-            let (ok2, r2, c2) = decode_fresh(2, &b2);
-            let (ok1, r1, c1) = decode_fresh(1, &b1);
-            env.cov.api_calls += c1 + c2;
+            let mut f2 = DynSet::new(2);
+            let mut f1 = DynSet::new(1);
+            let iso2: Vec<Res> = b2.iter().map(|b| Res::of(&f2.advance_state(*b))).collect();
+            let iso1: Vec<Res> = b1.iter().map(|b| Res::of(&f1.advance_state(*b))).collect();
+            env.cov.api_calls += (b1.len() + b2.len()) as u64;
             env.cov.evaluations += 1;
-            h.mix(((pfx as u64) << 9 | (code as u64) << 1 | brk as u64) ^ (r2.hash() << 20) ^ (r1.hash() << 40));
+            let (s2, s1) = (settled(&iso2), settled(&iso1));
+            h.mix(((pfx as u64) << 9 | (code as u64) << 1 | brk as u64) ^ (s2.iter().fold(0u64, |a, r| a.wrapping_mul(31) ^ r.hash()) << 20));
             let ci = codes.iter().position(|c| *c == code).unwrap_or(0);
-            env.cov.hit("context_x_translatable_code_x_direction", ((pfx as usize) * 129 + ci) * 2 + brk as usize);
-            let ctxname = CTX1_NAMES[pfx as usize];
+            if plain {
+                env.cov.hit("context_x_translatable_code_x_direction", ((pfx as usize) * 129 + ci) * 2 + brk as usize);
+            }
+            // the context in which the code byte is actually decoded: after a doubled/stray
+            // prefix in front of a prefixed key the code byte ends up unprefixed
+            let eff_pfx = match fault {
+                BFault::Dup(0) if pfx != 0 => 0,
+                BFault::Ins(0, b) if b == 0xE0 || b == 0xE1 => {
+                    if pfx != 0 {
+                        0
+                    } else if b == 0xE0 {
+                        1
+                    } else {
+                        2
+                    }
+                }
+                _ => pfx as usize,
+            };
+            let ctxname = CTX1_NAMES[eff_pfx];
             let dir = if brk { "break" } else { "make" };
-            let mut agreed_event_isolated: Option<(KeyCode, KeyState)> = None;
-            if !ok1 || !ok2 {
-                // a prefix byte produced a result in one encoding: not a well-formed pair, C01/C02's business
+            let tag = "";
+            if let Some(j) = lists_disagree(&s2, &s1) {
+                let sig = format!(
+                    "c13/{}/{:02X}/{}{}/set2={}/set1={}",
+                    ctxname,
+                    code,
+                    dir,
+                    tag,
+                    s2.get(j).map(|r| r.show()).unwrap_or_else(|| "nothing".into()),
+                    s1.get(j).map(|r| r.show()).unwrap_or_else(|| "nothing".into())
+                );
+                let detail = format!(
+                    "Set 2 bytes {:02X?} decode as [{}]; the i8042 translates them to {:02X?}, which Set 1 decodes as [{}] (keys that only one set can express are not compared)",
+                    b2,
+                    show_list(&s2),
+                    b1,
+                    show_list(&s1)
+                );
+                if let Some(v) = env.disagree("C13", "translated-sequence-same-event", &sig, i, detail) {
+                    violation = Some(v);
+                    break 'ops;
+                }
             } else {
-                match (r2, r1) {
-                    (Res::Ev(k2, s2), Res::Ev(k1, s1)) => {
-                        env.cov.probe("obs_both_hosts_decoded_a_key");
-                        if k2 != k1 || s2 != s1 {
-                            let sig = format!("c13/{}/{:02X}/{}/set2={}/set1={}", ctxname, code, dir, r2.show(), r1.show());
-                            let detail = format!(
-                                "Set 2 sequence {:02X?} decodes as {}, its i8042 translation {:02X?} decodes as {}",
-                                b2,
-                                r2.show(),
-                                b1,
-                                r1.show()
-                            );
-                            if let Some(v) = env.disagree("C13", "translated-sequence-same-event", &sig, i, detail) {
-                                violation = Some(v);
-                                break 'ops;
-                            }
-                        } else {
-                            agreed_event_isolated = Some((k2, s2));
-                            if kidx(k2) < NKEYS && s2 != KeyState::SingleShot {
-                                env.cov.hit("common_key_x_direction_agreed", kidx(k2) * 2 + (s2 == KeyState::Down) as usize);
+                for (x, y) in s2.iter().zip(s1.iter()) {
+                    match (x, y) {
+                        (Res::Ev(k, s), Res::Ev(..)) => {
+                            env.cov.probe("obs_both_hosts_decoded_a_key");
+                            if kidx(*k) < NKEYS && *s != KeyState::SingleShot {
+                                env.cov.hit("common_key_x_direction_agreed", kidx(*k) * 2 + (*s == KeyState::Down) as usize);
                             }
                         }
+                        (Res::Ev(..), Res::Err(_)) => env.cov.count("set2_key_not_expressible_in_set1", 1),
+                        (Res::Err(_), Res::Ev(..)) => env.cov.probe("obs_only_set1_knows_the_code"),
+                        _ => env.cov.probe("obs_neither_host_knows_the_code"),
                     }
-                    (Res::Ev(k2, _), Res::Err(_)) => {
-                        if set1_expressible(k2) {
-                            let sig = format!("c13/{}/{:02X}/{}/set2={}/set1={}", ctxname, code, dir, r2.show(), r1.show());
-                            let detail = format!(
-                                "Set 2 sequence {:02X?} decodes as {}; the i8042 translates it to {:02X?}, which Set 1 rejects ({}) although Set 1 can express {} elsewhere: the two tables file this key under codes that are not each other's translation",
-                                b2,
-                                r2.show(),
-                                b1,
-                                r1.show(),
-                                kname(k2)
-                            );
-                            if let Some(v) = env.disagree("C13", "translated-sequence-same-event", &sig, i, detail) {
-                                violation = Some(v);
-                                break 'ops;
-                            }
-                        } else {
-                            env.cov.count("set2_key_not_expressible_in_set1", 1);
-                        }
-                    }
-                    (Res::Err(_), Res::Ev(..)) => env.cov.probe("obs_only_set1_knows_the_code"),
-                    _ => env.cov.probe("obs_neither_host_knows_the_code"),
                 }
             }
-            // end to end: the two hosts' long-lived decoders read the same key from the stream.
-            // They must agree with each other exactly as the per-sequence verdicts must
-            let mut ra = Res::Pending;
-            let mut rb = Res::Pending;
-            for b in &b2 {
-                ra = Res::of(&host_a.add_byte(*b));
+            // end to end: the two hosts' long-lived Keyboards read the same key from the stream
+            // (with clear() called on both at the same point, if the op says so). They must agree
+            // with each other exactly as the per-sequence verdicts must.
+            let mut la: Vec<Res> = Vec::new();
+            let mut lb: Vec<Res> = Vec::new();
+            for (j, b) in b2.iter().enumerate() {
+                if clear_at.map(|n| n.min(b2.len() - 1).max(1)) == Some(j) {
+                    host_a.clear();
+                }
+                la.push(Res::of(&host_a.add_byte(*b)));
             }
-            for b in &b1 {
-                rb = Res::of(&host_b.add_byte(*b));
+            for (j, b) in b1.iter().enumerate() {
+                if clear_at.map(|n| n.min(b1.len() - 1).max(1)) == Some(j) {
+                    host_b.clear();
+                }
+                lb.push(Res::of(&host_b.add_byte(*b)));
             }
             env.cov.api_calls += (b1.len() + b2.len()) as u64;
             env.cov.evaluations += 1;
-            let stream_disagree = match (ra, rb) {
-                (Res::Ev(k2, s2), Res::Ev(k1, s1)) => k2 != k1 || s2 != s1,
-                (Res::Ev(k2, _), Res::Err(_)) => set1_expressible(k2),
-                (Res::Ev(..), Res::Pending) | (Res::Pending, Res::Ev(..)) => true,
-                _ => false,
-            };
-            if stream_disagree {
-                let sig = format!("c13/{}/{:02X}/{}/set2={}/set1={}", ctxname, code, dir, ra.show(), rb.show());
+            let (sa, sb) = (settled(&la), settled(&lb));
+            if let Some(j) = lists_disagree(&sa, &sb) {
+                let sig = format!(
+                    "c13/{}/{:02X}/{}{}/set2={}/set1={}",
+                    ctxname,
+                    code,
+                    dir,
+                    tag,
+                    sa.get(j).map(|r| r.show()).unwrap_or_else(|| "nothing".into()),
+                    sb.get(j).map(|r| r.show()).unwrap_or_else(|| "nothing".into())
+                );
                 let detail = format!(
-                    "in the stream, host A (Set 2) read {:02X?} as {} while host B (Set 1 behind the i8042) read {:02X?} as {}",
+                    "in the stream{}, host A (Set 2) read {:02X?} as [{}] while host B (Set 1 behind the i8042) read {:02X?} as [{}]",
+                    if clear_at.is_some() { " (clear() called on both hosts inside the sequence)" } else { "" },
                     b2,
-                    ra.show(),
+                    show_list(&sa),
                     b1,
-                    rb.show()
+                    show_list(&sb)
                 );
                 if let Some(v) = env.disagree("C13", "hosts-agree-on-the-stream", &sig, i, detail) {
                     violation = Some(v);
                     break 'ops;
                 }
             }
-            if ra != r2 || rb != r1 {
+            if sa != s2 || sb != s1 {
                 env.cov.count("stream_result_differs_from_isolated_sequence", 1);
             }
-            let agreed_event = match (ra, rb) {
-                (Res::Ev(k2, s2), Res::Ev(k1, s1)) if k2 == k1 && s2 == s1 => Some((k2, s2)),
-                _ => None,
-            };
-            let _ = agreed_event_isolated;
-            if let Some((k, s)) = agreed_event {
+            // events both hosts agree on go through both event decoders
+            for (x, y) in sa.iter().zip(sb.iter()) {
+                let (k, s) = match (x, y) {
+                    (Res::Ev(k2, s2), Res::Ev(k1, s1)) if k2 == k1 && s2 == s1 => (*k2, *s2),
+                    _ => continue,
+                };
                 let da = host_a.process_keyevent(pc_keyboard::KeyEvent::new(k, s));
                 let db = host_b.process_keyevent(pc_keyboard::KeyEvent::new(k, s));
                 env.cov.api_calls += 2;
@@ -592,11 +674,15 @@ impl Scenario for Dual {
                 }
             }
             if env.verbose {
-                env.log.push(format!("op {} {} -> set2 {:02X?} = {} | set1 {:02X?} = {}", i, op_show(&top.op), b2, r2.show(), b1, r1.show()));
+                env.log.push(format!("op {} {} -> set2 {:02X?} = [{}] | set1 {:02X?} = [{}]", i, op_show(&top.op), b2, show_list(&sa), b1, show_list(&sb)));
             }
         }
         env.cov.sim_time_ns += last_t as u128;
-        env.cov.fault_free_runs += 1;
+        if any_fault {
+            env.cov.faulty_runs += 1;
+        } else {
+            env.cov.fault_free_runs += 1;
+        }
         if let Some(v) = &violation {
             h.mix(crate::rng::fnv(v.oracle.as_bytes()));
         }
@@ -618,7 +704,7 @@ impl Scenario for Dual {
         vec![
             "trusted base: the 8042 translation table (spec.rs) and the i8042 model (world.rs)".into(),
             "Set 2 codes 47/4F are not keys of the shared keyboard (their translated break bytes are the Set 1 prefix bytes); only keys both sets can express are constrained: Set 2 unknown / Set 1 known is not flagged; 'Set 1 can express K' is probed from the real Set 1 decoder over all 3 x 128 make sequences".into(),
-            "fault-free by design: a corrupted byte legitimately resynchronises differently in the two encodings (C07 covers faults per set)".into(),
+            "the only faults are device-side prefix stutter (a prefix byte sent twice, a stray prefix byte), which reaches both hosts through the controller unchanged; other corruptions are not injected because the i8042 legitimately reshapes them (it swallows a doubled F0), C07 covers them per set; clear() is called on both hosts at arbitrary instants, also inside a key sequence".into(),
         ]
     }
     fn components_real(&self) -> Vec<&'static str> {
